@@ -419,7 +419,8 @@ def case_jit_like(ctx, rng, kind, desc_base):
   from flax import nnx
   import jax.numpy as jnp
   specs, alias = gen_specs(rng)
-  structural = rng.random() < 0.7
+  # cached_partial documents that the final structure of graph nodes must be the same after each call: value-only programs there
+  structural = rng.random() < 0.7 and kind != 'cached_partial'
   ret_kind = rng.choice(['scalar', 'scalar', 'node', 'both', 'wrap'] if structural else ['scalar', 'scalar', 'node', 'both'])
   prog, ret = gen_program(rng, specs, alias, rng.randint(1, 6), structural, ret_kind)
   n_calls = rng.choice([1, 1, 2, 3]) if kind != 'remat' else 1
@@ -593,7 +594,7 @@ def case_rejections(ctx, rng, kind, desc_base):
 
 def run(ctx):
   from flax.nnx import graph
-  n = 500 if ctx.tier == 'quick' else 6000
+  n = 1000 if ctx.tier == 'quick' else 8000
   kinds = ['jit', 'jit', 'jit', 'remat', 'cached_partial', 'cond', 'switch', 'while_loop', 'fori_loop', 'jit']
   for i in ctx.indices(n, 'case'):
     rng = ctx.rng('case', i)
